@@ -447,7 +447,7 @@ def run_c15(tier, seed, t0, replay_item=None):
     else:
         mc = core.model_check("ReadOnly.tla", "MC_ReadOnly.cfg", timeout=1200)
         log("[C15] TLC exhaustive: %d distinct / %d generated states; C15_ReadOnly, C15_MutatorsDenied, C15_ReadersAgree hold on the design" % (mc["distinct"], mc["generated"]))
-        n = 60 if tier == "quick" else 1200
+        n = 60 if tier == "quick" else 3000
         behs, st = core.simulate("ReadOnly.tla", "Gen_ReadOnly.cfg", n, 40, seed * 31 + 5, workers=8, timeout=1500)
         gen = st["generated"]
         rng = random.Random(seed)
@@ -506,7 +506,7 @@ def run_c14(tier, seed, t0, replay_item=None):
     else:
         mc = core.model_check("MC_File.tla", "MC_File.cfg", timeout=1200)
         log("[C14] TLC exhaustive on File.tla: %d distinct / %d generated states" % (mc["distinct"], mc["generated"]))
-        n = 260 if tier == "quick" else 6000
+        n = 260 if tier == "quick" else 20000
         cfgtxt = open(os.path.join(core.SPEC, "Gen_File.cfg")).read()
         behs = []
         for depth, share in ((3, 0.25), (14, 0.5), (30, 0.25)):
@@ -658,7 +658,7 @@ def run_c10(tier, seed, t0, replay_item=None):
             items.append({"id": "C10-std-%d-%d" % (seed, i), "cfg": cfg, "conc": cc, "history": STD_HISTORY,
                           "call": {"op": op, "p": p, "q": q, "c": c, "k": k}, "allk": tier == "thorough"})
         # calls inside TLC-generated histories
-        behs, _ = generate_core(seed, [("wide", 10 if tier == "quick" else 150)])
+        behs, _ = generate_core(seed, [("wide", 10 if tier == "quick" else 500)])
         for i, (g, steps) in enumerate(behs):
             j = rng.randrange(2, len(steps))
             cfg, cc, pool = conc.concretise(rng, steps, plain_bias=0.7, allow_pgp=False, small=True)
@@ -794,7 +794,7 @@ def run_c11(tier, seed, t0, replay_item=None):
         mc = mc_locks(tier, "C11")
         log("[C11] TLC on Locks.tla (2 clients, 0 and 1 faults%s): %d distinct states, no deadlock, every call returns" % (", 3 clients" if tier == "thorough" else "", mc["distinct"]))
         rng = random.Random(seed)
-        n = 28 if tier == "quick" else 500
+        n = 28 if tier == "quick" else 800
         items = []
         for i in range(n):
             ncl = rng.choice([2, 2, 3, 4] if tier == "quick" else [2, 3, 4, 6, 8])
@@ -918,7 +918,7 @@ def run_c03(tier, seed, t0, replay_item=None):
         for i, (c, l, e, s) in enumerate(pipelines):
             rs = rng.choice(conc.RECORD_SIZES)
             sizes = conc.SIZE_CLASSES(rs) + [0]
-            for j in range(1 if tier == "quick" else 4):
+            for j in range(1 if tier == "quick" else 10):
                 size = rng.choice(sizes)
                 if tier == "quick" and size > 200000:
                     size = rs * 512 + 1
@@ -1058,7 +1058,7 @@ def run_c18(tier, seed, t0, replay_item=None):
         for t in table:
             groups.setdefault((t["role"], t["format"], t["pw"]), []).append({"parsepw": t["parsepw"], "pair": t["pair"], "expect": t["expect"]})
         items = []
-        reps = 1 if tier == "quick" else 4
+        reps = 1 if tier == "quick" else 8
         for (role, fmt, pwc), tuples in sorted(groups.items()):
             for k in range(reps):
                 pw = rng.choice(PW_POOL[pwc])
@@ -1133,14 +1133,14 @@ def run_c17(tier, seed, t0, replay_item=None):
         log("[C17] TLC on Roots.tla: %d distinct states; every member of every archive shape resolves under all spellings" % mc["distinct"])
         rng = random.Random(seed)
         items = []
-        n = 36 if tier == "quick" else 600
+        n = 36 if tier == "quick" else 6000
         for i in range(n):
             fmt = ["ustar", "pax", "gnu"][i % 3]
             shape = ["./", "/", "top/", "."][(i // 3) % 4]
             pool = rng.choice(["plain", "plain", "long", "spaces", "nonascii", "like", "dots", "suffixy", "case"])
             names, pool = conc.names(rng, ["a", "b", "c", "d"], pool)
             items.append({"id": "C17-%d-%d" % (seed, i), "rs": rng.choice(conc.RECORD_SIZES), "format": fmt, "shape": shape,
-                          "members": foreign_tree(rng, rng.choice([1, 2, 3]), rng.choice([1, 2, 3])), "names": names,
+                          "members": foreign_tree(rng, rng.choice([1, 2, 3] if tier == "quick" else [1, 2, 3, 4]), rng.choice([1, 2, 3] if tier == "quick" else [2, 3, 4])), "names": names,
                           "seed": rng.randrange(1 << 30), "spellings": ["abs", "rel", "dot"], "pool": pool})
     res, crashed = core.run_batches(runner, "foreign", items, per_batch=4, timeout=3000)
     by_id = {it["id"]: it for it in items}
